@@ -177,15 +177,29 @@ def exhaustive():
                             h.append("bind 1 %d 0" % third)
                         h += [op, "emit 1", "emit 1", "destroy"]
                         lines.extend(h); n += 1
+    # the stop-at-first-claim walker: key events of a terminal, handler 0 claiming or declining
+    acts2 = ["us", "u:0", "u:1", "e:2", "b:2:0:1", "b:2:1:1", "b:2:8:1"]
+    behs2 = [[]] + [[x] for x in acts2] + [[x, y] for x in acts2 for y in acts2]
+    for beh in behs2:
+        for ret in (0, 1):
+            for f1 in range(16):
+                for f2 in small:
+                    for op in ["emit 2", "unbind 0", "unbind 1"]:
+                        h = ["new term"]
+                        if beh or ret:
+                            h.append(("beh 0 0 %d " % ret + " ".join(beh)).rstrip())
+                        h += ["bind 2 %d 0" % f1, "bind 2 %d 1" % f2, op, "emit 2", "emit 2", "destroy"]
+                        lines.extend(h); n += 1
     stats["exhaustive_histories"] = n
-    return "handler 0 with <=2 actions out of 7 at its first invocation x 16 flag sets (binding 0) x 4 (binding 1) x optional third binding x 3 operations, pen owner"
+    return ("handler 0 with <=2 actions out of 7 at its first invocation x 16 flag sets (binding 0) x 4 (binding 1) x optional third binding "
+            "x 3 operations on a pen (run_event); the same with claim/decline x 16 x 4 x 3 operations on a terminal's key event (run_event_whilefalse)")
 
 
 bound = None
 if a.tier == "exhaustive":
     bound = exhaustive()
 else:
-    n_hist = 1500 if a.tier == "quick" else 12000
+    n_hist = 1500 if a.tier == "quick" else 8000
     for i in range(n_hist):
         r = rng.random()
         if r < 0.15:
